@@ -94,8 +94,8 @@ class BiLinearForm(_Form):
                 # sum on gauss points
                 values_e = (values_e_pg * dX_e_pg).integrate()
 
-                # add data
-                data[:, i, j] = values_e
+                # add data ((Ne,) or (Ne, 1) values: the form gives a scalar or a 1-vector at each point)
+                data[:, i, j] = np.reshape(values_e, -1)
 
         return data
 
@@ -171,8 +171,8 @@ class LinearForm(_Form):
             # sum on gauss points
             values_e = (values_e_pg * dX_e_pg).integrate()
 
-            # add data
-            data[:, i] = values_e
+            # add data ((Ne,) or (Ne, 1) values: the form gives a scalar or a 1-vector at each point)
+            data[:, i, 0] = np.reshape(values_e, -1)
 
         return data
 
